@@ -88,7 +88,7 @@ var c07SawStuck atomic.Bool
 
 func c07Timeout() time.Duration {
 	if c07SawStuck.Load() {
-		return 1500 * time.Millisecond
+		return 500 * time.Millisecond
 	}
 	return 10 * time.Second
 }
